@@ -171,7 +171,14 @@ def rule_only(ctx, layers_full):
                         if not reach[callee] <= reach[name]:
                             reach[name] |= reach[callee]
                             changed = True
+        if not uses:
+            # no syntactic use of the link at all: it is handed out by a helper (a context manager's `as` name, a
+            # returned value) - every method that can reach any `.send(` call is executed and what arrives at the
+            # lower layer decides
+            uses = [name for name, fn in base.methods.items()
+                    if any(isinstance(n, ast.Call) and isinstance(n.func, ast.Attribute) and n.func.attr == "send" for n in ast.walk(fn))]
         entries = sorted(m for m in base.methods if not private(m) and m != "__init__" and reach[m] & set(uses))
+        entries_sending = []
         bad, und = [], []
         for m in entries:
             try:
@@ -179,13 +186,15 @@ def rule_only(ctx, layers_full):
             except (NeedAtom, Budget, DomainGrew) as x:
                 und.append("%s: %s" % (m, x))
                 continue
+            if sends:
+                entries_sending.append(m)
             for held, _a in sends:
                 if lk is None or not held or held < 1:
                     bad.append("%s reaches the lower layer's send with the layer lock held %s time(s)" % (m, held))
         if und and not bad:
             ctx.undecided("C11.only", where(LAYERS, "YowLayer", None), "self.__lower.send used in %s" % uses, "not every way to the lower link's send could be followed: " + "; ".join(und[:2]))
         else:
-            ctx.check("C11.only", not bad and bool(entries), where(LAYERS, "YowLayer", None), "self.__lower.send used in %s" % uses,
+            ctx.check("C11.only", not bad and bool(entries_sending), where(LAYERS, "YowLayer", None), "self.__lower.send used in %s" % uses,
                       "the lower link's send must only run under the layer's lock: " + ("; ".join(bad[:3]) or "no way in found"), "every way to lower.send (%s) holds the layer lock" % ", ".join(entries))
     flat = []
     for L in layers_full:
